@@ -428,8 +428,11 @@ def suite_assign(ck, sessions, n_values, judge=True):
                     if canon(got) != canon(want) and not (isinstance(f.data_type, Nullable) and v[0] == 'n'):
                         bad = 'assigned value does not read back equal (up to the documented normalisations)'
             if bad:
+                from stone.ir import unwrap
                 ck.failing_input('C08 %s: %s' % ('assignment' if kind == 'set' else 'union construction', bad),
-                                 {'kind': kind, 'why': bad.split(' (')[0]},
+                                 {'kind': kind, 'why': bad.split(' (')[0],
+                                  'value_kind': 'object-instance' if v == ['o', 'object'] else v[0],
+                                  'declared': type(unwrap(f.data_type)[0]).__name__ if f is not None else None},
                                  {'specs': ses.specs, 'cls': ref, 'member': f.name if f else None, 'value': v, 'real': list(real)})
 
 
@@ -982,3 +985,54 @@ def suite_wire(ck, sessions, n_values, judge=True):
                                       'wire': rep['ok']})
             if len(ck.samples) < 4 and stored[0] in 'SU':
                 ck.sample({'type': label, 'value': stored, 'wire': tagged_to_json(rep['ok'])})
+
+
+# ==================================================================================================
+# sessions, replay
+# ==================================================================================================
+def sessions(ck, specs_list):
+    """Compile + generate + import every spec; a spec the real toolchain cannot build is recorded
+    (and judged by C09's check, not here)."""
+    out = []
+    for specs in specs_list:
+        try:
+            out.append(Session(ck, specs))
+        except Exception as e:  # noqa: BLE001
+            ck.stat('spec_not_buildable')
+            ck.note('spec not buildable (%s: %s): %s' % (type(e).__name__, str(e)[:120], [p for p, _ in specs]))
+    ck.hist('rt.sessions', len(out))
+    return out
+
+
+def replay(ck, path):
+    """Re-run one recorded case against the current tree and the model."""
+    rec = json.load(open(path))
+    case = rec.get('case', {})
+    print(json.dumps({k: case[k] for k in case if k != 'specs'}, indent=1, default=repr)[:3000])
+    if 'specs' not in case:
+        print('replay: nothing executable recorded (%s)' % rec.get('what', rec.get('broken')))
+        return 0
+    ck.build()
+    ses = Session(ck, [tuple(s) for s in case['specs']])
+    label = case.get('type')
+    found = [(l, ir) for l, ir in ses.types if l == label]
+    if not found:
+        print('replay: type %r not found' % label)
+        return 2
+    label, ir = found[0]
+    validator = ses.validator(label, ir)
+    irt = irdump.ir_ty(ir)
+    if 'doc' in case and case['doc'] is not None:
+        real = ses.real_decode(validator, case['doc'], perms=case.get('perms', ()), strict=case.get('strict', True))
+        rep = ses.run([{'op': 'rt.dec', 'ty': irt, 'doc': case['doc'], 'perms': list(case.get('perms', ())),
+                        'strict': case.get('strict', True)}], [case['doc']], [irt])[0]
+        print('real decode :', real)
+        print('model decode:', model_outcome(rep))
+    if 'value' in case:
+        obj = ses.codec.to_py(case['value'])
+        real = ses.real_encode(validator, obj, perms=case.get('perms', ()), redact=case.get('redact', False))
+        rep = ses.run([{'op': 'rt.enc', 'ty': irt, 'v': case['value'], 'perms': list(case.get('perms', ())),
+                        'redact': case.get('redact', False)}], [case['value']], [irt])[0]
+        print('real encode :', real)
+        print('model encode:', model_outcome(rep))
+    return 0
